@@ -6,7 +6,7 @@ Open Scope string_scope.
 Definition one (n : string) := filter (fun fd => String.eqb (fn_name fd) n) eon_program.
 Eval vm_compute in (report eon_program (one "_dSIS_pair_based_")).
 Eval vm_compute in (report eon_program (one "fast_nonMarkov_SIS")).
-Eval vm_compute in (report eon_program (one "_dSIR_effective_degree_")).
+Eval vm_compute in (report eon_program (one "basic_discrete_SIS")).
 Eval vm_compute in (report eon_program (one "SIR_heterogeneous_pairwise")).
 Eval vm_compute in (report eon_program (one "_dSIS_heterogeneous_pairwise_")).
 Eval vm_compute in (report eon_program (one "SIR_individual_based")).
